@@ -23,7 +23,13 @@ gvars == <<vars, hist, streak, settling, dirty, destr>>
 
 GenRoa == {<<"p1", "a1">>, <<"p2", "a1">>, <<"p2", "a2">>}
 GenAspa == {<<"a1", "prov:a2">>, <<"a1", "prov:a2+a3">>}
-GenRoaAspa == GenRoa \cup GenAspa
+GenRtr == {<<"a1", "rtr:k1">>, <<"a1", "rtr:k2">>}
+GenRoaAspa == GenRoa \cup GenAspa \cup GenRtr
+\* router keys are configured like route authorisations (add / remove, an
+\* object iff the AS is held) through their own API call
+IsRtr(r) == r[2] \in {"rtr:k1", "rtr:k2"}
+AddName(r) == IF IsRtr(r) THEN "RtrAdd" ELSE "RoaAdd"
+DelName(r) == IF IsRtr(r) THEN "RtrDel" ELSE "RoaDel"
 NoAspa == {}
 ProvOf(x) == IF x[2] = "prov:a2" THEN <<"a2">> ELSE <<"a2", "a3">>
 GenChain == [c \in Sub |-> IF c = "B" THEN "A" ELSE IF c = "C" THEN "B" ELSE "A"]
@@ -64,9 +70,10 @@ GenApiAny ==
          \/ AspaSet(c, x) /\ Api([a |-> "AspaSet", c |-> c, cust |-> x[1], prov |-> ProvOf(x)])
          \/ AspaDel(c, x[1]) /\ Api([a |-> "AspaSet", c |-> c, cust |-> x[1], prov |-> <<>>])
     \/ "roa" \in Ops /\ \E c \in AllCA, r \in Roa \ AspaDefs :
-         \/ RoaAdd(c, r) /\ Api([a |-> "RoaAdd", c |-> c, r |-> <<r[1], r[2]>>])
-         \/ RoaDel(c, r) /\ Api([a |-> "RoaDel", c |-> c, r |-> <<r[1], r[2]>>])
-    \/ "roadelta" \in Ops /\ \E c \in AllCA, A \in SUBSET (Roa \ AspaDefs), D \in SUBSET (Roa \ AspaDefs) :
+         \/ RoaAdd(c, r) /\ Api([a |-> AddName(r), c |-> c, r |-> <<r[1], r[2]>>])
+         \/ RoaDel(c, r) /\ Api([a |-> DelName(r), c |-> c, r |-> <<r[1], r[2]>>])
+    \/ "roadelta" \in Ops /\ \E c \in AllCA, A \in SUBSET {r \in Roa \ AspaDefs : ~IsRtr(r)},
+                                              D \in SUBSET {r \in Roa \ AspaDefs : ~IsRtr(r)} :
          /\ Cardinality(A) + Cardinality(D) >= 2
          /\ RoaDelta(c, A, D)
          /\ Api([a |-> "RoaDelta", c |-> c,
